@@ -365,8 +365,12 @@ func NewWALDecoder(rd io.Reader) *WALDecoder {
 func (dec *WALDecoder) Decode() (*TimedWALMessage, error) {
 	b := make([]byte, 4)
 
-	_, err := dec.rd.Read(b)
+	nCRC, err := dec.rd.Read(b)
 	if errors.Is(err, io.EOF) {
+		if nCRC > 0 {
+			// the stream ends inside the checksum: a torn record, not a clean end
+			return nil, DataCorruptionError{fmt.Errorf("failed to read checksum: got %d of %d bytes", nCRC, len(b))}
+		}
 		return nil, err
 	}
 	if err != nil {
